@@ -1,8 +1,14 @@
-//! C18/C19 system level: a C-ABI TCP server with the programmable application of Model/FfiServer.v
-//! (`prog_handler`), driven by database operation batches and RAW request frames; the reply bytes are printed.
+//! C18/C19 system level: a C-ABI TCP server with the programmable application of Spec/FfiWireSpec.v
+//! (`prog2_point`; as C callbacks: Model/FfiServer.v `prog2_handler`), driven by database operation batches and RAW request frames; the reply bytes are printed.
 //! input line: space separated groups
+//!   H:null           first group, optional: the application sets NO write callback (all four NULL)
 //!   I:<ops>          ops inside the configure callback (db_ops syntax), at most one, first
 //!   T:<ops>          ops inside one rodbus_server_update_database transaction
+//!   W:<ops>|<hex>    one rodbus_server_update_database transaction whose callback FIRST sends the MBAP request
+//!                    <hex> (a write) to the case's served unit on the client connection and waits 200 ms for an
+//!                    answer, THEN executes <ops> and returns; the answer is collected (after the transaction if it
+//!                    had not arrived inside). Rendered as the op results followed by the reply; the line ends with
+//!                    ` inside=<n>` = number of W requests that were answered while the transaction was running
 //!   X:<S|N>:<hex>    one MBAP request whose PDU is <hex>, addressed to the case's served unit (S, rendered as
 //!                    unit 01) or to a unit id the server does not serve (N, rendered as unit 09)
 //! output line: ';' separated: op results as in db_ops; per X the reply ADU in hex or `-` for silence (decided
@@ -10,7 +16,10 @@
 //!   finally cb=<number of write-callback invocations>
 //! Write callbacks (all four set): per item address a: a < 100 update the point (success iff present, else
 //!   IllegalDataAddress); 100..109 fail with the (a-100)-th standard exception (9 = Unknown, raw 0); 110..365 fail
-//!   with Unknown and raw code a-110; >= 366 add-or-update, success. Write-multiple stops at the first failure.
+//!   with Unknown and raw code a-110; >= 366 add-or-update, success. After an item that succeeded the callback also
+//!   changes the read-only point types, by a mod 4: 1 add-or-update discrete input a := (v != 0); 2 add-or-update
+//!   input register a := v; 3 delete discrete input a and input register a; 0 nothing.
+//!   Write-multiple stops at the first failure (earlier items stay).
 use super::p5_common::*;
 use std::io::{Read, Write};
 use std::os::raw::c_void;
@@ -22,6 +31,9 @@ use std::time::Duration;
 struct Batch {
     ops: Vec<String>,
     results: Vec<String>,
+    /// W groups: a request to send from inside the callback, before the ops
+    send_first: Option<(std::net::TcpStream, Vec<u8>)>,
+    answered_inside: bool,
 }
 
 #[derive(Default)]
@@ -46,6 +58,24 @@ fn ok() -> ffi::WriteResult {
     write_result(true, ffi::ModbusException::Unknown, 0)
 }
 
+unsafe fn mirror(db: *mut rodbus_ffi::Database, i: u16, v: u16) {
+    match i % 4 {
+        1 => {
+            ffi::rodbus_database_add_discrete_input(db, i, v != 0);
+            ffi::rodbus_database_update_discrete_input(db, i, v != 0);
+        }
+        2 => {
+            ffi::rodbus_database_add_input_register(db, i, v);
+            ffi::rodbus_database_update_input_register(db, i, v);
+        }
+        3 => {
+            ffi::rodbus_database_delete_discrete_input(db, i);
+            ffi::rodbus_database_delete_input_register(db, i);
+        }
+        _ => {}
+    }
+}
+
 unsafe fn prog_point(db: *mut rodbus_ffi::Database, coil: bool, i: u16, v: u16) -> ffi::WriteResult {
     if i < 100 {
         let present = if coil {
@@ -54,6 +84,7 @@ unsafe fn prog_point(db: *mut rodbus_ffi::Database, coil: bool, i: u16, v: u16) 
             ffi::rodbus_database_update_holding_register(db, i, v)
         };
         if present {
+            mirror(db, i, v);
             ok()
         } else {
             write_result(false, ffi::ModbusException::IllegalDataAddress, 0)
@@ -70,6 +101,7 @@ unsafe fn prog_point(db: *mut rodbus_ffi::Database, coil: bool, i: u16, v: u16) 
             ffi::rodbus_database_add_holding_register(db, i, v);
             ffi::rodbus_database_update_holding_register(db, i, v);
         }
+        mirror(db, i, v);
         ok()
     }
 }
@@ -163,6 +195,13 @@ unsafe fn exec_op(db: *mut rodbus_ffi::Database, op: &str) -> String {
 
 extern "C" fn run_batch(db: *mut rodbus_ffi::Database, ctx: *mut c_void) {
     let mut b = unsafe { ctx_ref::<Batch>(ctx) }.lock().unwrap();
+    if let Some((mut stream, req)) = b.send_first.take() {
+        let _ = stream.write_all(&req);
+        let _ = stream.set_read_timeout(Some(Duration::from_millis(200)));
+        let mut one = [0u8; 1];
+        b.answered_inside = matches!(stream.peek(&mut one), Ok(n) if n > 0);
+        let _ = stream.set_read_timeout(Some(Duration::from_secs(10)));
+    }
     let ops = b.ops.clone();
     for op in ops {
         let r = unsafe { exec_op(db, &op) };
@@ -174,6 +213,8 @@ fn batch_callback(ops: &str) -> (&'static Mutex<Batch>, ffi::DatabaseCallback) {
     let (state, ctx) = leak_ctx(Batch {
         ops: ops.split(';').filter(|s| !s.is_empty()).map(|s| s.to_string()).collect(),
         results: Vec::new(),
+        send_first: None,
+        answered_inside: false,
     });
     (
         state,
@@ -214,6 +255,18 @@ fn exchange(s: &mut std::net::TcpStream, tx: u16, unit: u8, shown_unit: u8, pdu:
     if s.write_all(&req).is_err() {
         return "ERR:write".into();
     }
+    collect(s, unit, shown_unit)
+}
+
+/// the request is on its way already: send only the sentinel, return the replies that precede the sentinel's reply
+fn exchange_sent(s: &mut std::net::TcpStream, unit: u8, shown_unit: u8, sentinel_unit: u8) -> String {
+    if s.write_all(&[0xFF, 0xFF, 0, 0, 0, 6, sentinel_unit, 3, 0, 0, 0, 1]).is_err() {
+        return "ERR:write".into();
+    }
+    collect(s, unit, shown_unit)
+}
+
+fn collect(s: &mut std::net::TcpStream, unit: u8, shown_unit: u8) -> String {
     let mut answers = Vec::new();
     loop {
         match read_adu(s) {
@@ -246,18 +299,19 @@ fn batch(ffi_rt: &FfiRuntime, lines: &[String]) -> Vec<String> {
         unsafe {
             let map = ffi::rodbus_device_map_create();
             for (k, line) in lines.iter().enumerate() {
-                let init_ops = match line.split_whitespace().next() {
-                    Some(g) if g.starts_with("I:") => g[2..].to_string(),
-                    _ => String::new(),
+                let init_ops = match line.split_whitespace().find(|g| g.starts_with("I:")) {
+                    Some(g) => g[2..].to_string(),
+                    None => String::new(),
                 };
+                let null = line.split_whitespace().any(|g| g == "H:null");
                 let (state, cb) = batch_callback(&init_ops);
                 let (app, actx) = leak_ctx(App::default());
                 apps.push(app);
                 let handler = ffi::WriteHandler {
-                    write_single_coil: Some(w_coil),
-                    write_single_register: Some(w_reg),
-                    write_multiple_coils: Some(w_coils),
-                    write_multiple_registers: Some(w_regs),
+                    write_single_coil: if null { None } else { Some(w_coil) },
+                    write_single_register: if null { None } else { Some(w_reg) },
+                    write_multiple_coils: if null { None } else { Some(w_coils) },
+                    write_multiple_registers: if null { None } else { Some(w_regs) },
                     on_destroy: Some(noop_destroy),
                     ctx: actx,
                 };
@@ -290,8 +344,10 @@ fn batch(ffi_rt: &FfiRuntime, lines: &[String]) -> Vec<String> {
             for (k, line) in lines.iter().enumerate() {
                 let unit = (k + 1) as u8;
                 let mut tx: u16 = 1;
+                let mut inside = 0;
+                let mut any_w = false;
                 for g in line.split_whitespace() {
-                    if g.starts_with("I:") {
+                    if g.starts_with("I:") || g.starts_with("H:") {
                         continue;
                     }
                     if let Some(ops) = g.strip_prefix("T:") {
@@ -304,6 +360,36 @@ fn batch(ffi_rt: &FfiRuntime, lines: &[String]) -> Vec<String> {
                         if !r.is_empty() {
                             outs[k].push(r.join(";"));
                         }
+                    } else if let Some(w) = g.strip_prefix("W:") {
+                        any_w = true;
+                        let (ops, hexpdu) = w.split_once('|').unwrap();
+                        let pdu = crate::util::unhex(hexpdu);
+                        let mut req = Vec::new();
+                        req.extend(tx.to_be_bytes());
+                        req.extend([0, 0]);
+                        req.extend(((pdu.len() + 1) as u16).to_be_bytes());
+                        req.push(unit);
+                        req.extend(&pdu);
+                        let (state, cb) = batch_callback(ops);
+                        state.lock().unwrap().send_first = Some((stream.try_clone().unwrap(), req));
+                        let rc = ffi::rodbus_server_update_database(server, unit, cb);
+                        if rc != 0 {
+                            outs[k].push(format!("ERR:update_database:{}", param_error_name(rc)));
+                        }
+                        let (r, ins) = {
+                            let st = state.lock().unwrap();
+                            (st.results.clone(), st.answered_inside)
+                        };
+                        if ins {
+                            inside += 1;
+                        }
+                        if !r.is_empty() {
+                            outs[k].push(r.join(";"));
+                        }
+                        // the answer to the request sent from inside the callback, then the sentinel
+                        let _ = stream.set_read_timeout(Some(Duration::from_secs(10)));
+                        outs[k].push(exchange_sent(&mut stream, unit, 1, unit));
+                        tx += 1;
                     } else if let Some(x) = g.strip_prefix("X:") {
                         let (which, hexpdu) = x.split_once(':').unwrap();
                         let pdu = crate::util::unhex(hexpdu);
@@ -314,7 +400,7 @@ fn batch(ffi_rt: &FfiRuntime, lines: &[String]) -> Vec<String> {
                         outs[k].push(format!("ERR:group {g}"));
                     }
                 }
-                outs[k].push(format!("cb={}", apps[k].lock().unwrap().callbacks));
+                outs[k].push(format!("cb={}{}", apps[k].lock().unwrap().callbacks, if any_w { format!(" inside={inside}") } else { String::new() }));
             }
             drop(stream);
             ffi::rodbus_server_destroy(server);
